@@ -246,7 +246,25 @@ func (g *detGen) observe(v *Node) *Node {
 }
 
 func (g *detGen) form() *Node {
-	switch g.r.Pick([]int{10, 3, 2, 2, 2, 2, 1, 2, 3, 2, 2, 2, 3, 3, 1, 8}) {
+	switch g.r.Pick([]int{10, 3, 2, 2, 2, 2, 1, 2, 3, 2, 2, 2, 3, 3, 1, 8, 3, 3}) {
+	case 16:
+		// one closure reachable under different names from several packages; an
+		// error raised through it is reported with a function name
+		pa, pb := g.sym("qa"), g.sym("qb")
+		return Call("progn",
+			Call("set", QS("shared-fn"), L(A("lambda"), L(A("a"), A("b")), A("a"))),
+			Call("in-package", QS(pa)), Call("set", QS("handler"), A("user:shared-fn")),
+			Call("in-package", QS(pb)), Call("set", QS("callback"), A("user:shared-fn")),
+			Call("in-package", QS("user")),
+			PickNode(g.r, L(A(pa+":handler")), L(A(pb+":callback"), I(1)), L(A("shared-fn"))))
+	case 17:
+		// the same format texts used with the right and with the wrong number of values
+		txt := PickStr(g.r, []string{"{} / {}", "<{}>", "{} {} {} {}", "{0} {1}", "a{}b{}c", "{}"})
+		xs := []*Node{A("format-string"), Str(txt)}
+		for i := g.r.Range(0, 4); i > 0; i-- {
+			xs = append(xs, g.scalar())
+		}
+		return L(xs...)
 	case 15:
 		// any exported function of the language or a library, applied to generated
 		// arguments: most such calls are refused, and the refusal's message renders
